@@ -281,16 +281,56 @@ func variant(rng *rand.Rand, q *Query) *Query {
 // the object position (requests whose keys differ only in the operation name or in the position of a UUID)
 func crossOp(rng *rand.Rand, q *Query) *Query {
 	r := *q
+	// operations whose argument UUID lists can coincide: the key then differs in the operation name only
+	groups := [][]string{
+		{"PredicatesForSubject", "TriplesForSubject", "PredicatesForObject", "TriplesForObject"},
+		{"Objects", "TriplesForSubjectAndPredicate"},
+		{"Subjects", "TriplesForPredicateAndObject"},
+	}
 	r.Op = opNames[rng.Intn(len(opNames))]
-	if n, err := q.O.Node(); err == nil && rng.Intn(2) == 0 {
+	for _, g := range groups {
+		for _, o := range g {
+			if o == q.Op && rng.Intn(4) != 0 {
+				r.Op = g[rng.Intn(len(g))]
+			}
+		}
+	}
+	subj := func(o string) bool { return o == "PredicatesForSubject" || o == "TriplesForSubject" }
+	obj := func(o string) bool { return o == "PredicatesForObject" || o == "TriplesForObject" }
+	if subj(q.Op) && obj(r.Op) {
+		r.O = triple.NewNodeObject(q.S) // same UUID in the object position
+	} else if n, err := q.O.Node(); err == nil && obj(q.Op) && subj(r.Op) {
+		r.S = n
+	} else if err == nil && rng.Intn(2) == 0 {
 		r.S, r.O = n, triple.NewNodeObject(q.S)
-	} else if rng.Intn(3) == 0 {
-		r.O = triple.NewNodeObject(q.S)
 	}
 	if r.Op == "Exist" {
 		if t, err := triple.New(r.S, r.P, r.O); err == nil {
 			r.T = t
 		}
+	}
+	return &r
+}
+
+// argVariant: the same operation and options with ONE argument replaced (requests whose keys differ in one UUID only)
+func (v *vocab) argVariant(rng *rand.Rand, q *Query, present []*triple.Triple) *Query {
+	r := *q
+	var t *triple.Triple
+	if len(present) > 0 {
+		t = present[rng.Intn(len(present))]
+	} else {
+		t = v.triples[rng.Intn(len(v.triples))]
+	}
+	switch rng.Intn(3) {
+	case 0:
+		r.S = t.Subject()
+	case 1:
+		r.P = t.Predicate()
+	case 2:
+		r.O = t.Object()
+	}
+	if tt, err := triple.New(r.S, r.P, r.O); err == nil {
+		r.T = tt
 	}
 	return &r
 }
@@ -493,8 +533,11 @@ func genSeq(id int, seed int64, faults bool) SeqCase {
 			case len(pool) > 0 && x < 6:
 				q = variant(rng, pool[rng.Intn(len(pool))])
 				pool = append(pool, q)
-			case len(pool) > 0 && x < 8:
+			case len(pool) > 0 && x < 7:
 				q = crossOp(rng, pool[rng.Intn(len(pool))])
+				pool = append(pool, q)
+			case len(pool) > 0 && x < 8:
+				q = v.argVariant(rng, pool[rng.Intn(len(pool))], presentList(hgraph[h]))
 				pool = append(pool, q)
 			default:
 				q = v.randQuery(rng, presentList(hgraph[h]))
